@@ -27,7 +27,7 @@ EXT_TABLE = {
     "py": ["py", "py3", "pyi", "bzl"],
 }
 # probe names that the table says have NO language among the four above
-TABLE_NEGATIVE = ["p.txt", "p", "p.jsx2", "p.typescript", "js", "p.js.txt", "p.pyc"]
+TABLE_NEGATIVE = ["p.txt", "p", "p.jsx2", "p.typescript", "js", "p.js.txt", "p.pyx"]
 TABLE_POSITIVE_EXTRA = {"p.d.ts": "ts", "p.test.js": "js", "p.txt.py": "py"}
 
 
@@ -348,9 +348,11 @@ def sev_assignments(tier, which):
     allsev = list(itertools.product(SEVS, repeat=3))
     if which == "all":
         return allsev
-    # the two fixed assignments used with the complete override alphabet in the quick tier
+    # with the complete override alphabet: quick = two fixed assignments; thorough = the 25 assignments
+    # of a Latin square (r1, r2 free, r12 = SEVS[(i1 + i2) % 5]): every PAIR of rules sees all 25 pairs
     fixed = [("warning", "error", "off"), ("off", "hint", "error")]
-    return allsev if tier == "thorough" else fixed
+    latin = [(SEVS[a], SEVS[b], SEVS[(a + b) % 5]) for a in range(5) for b in range(5)]
+    return latin if tier == "thorough" else fixed
 
 
 LANG_GLOBS = [None, {"js": ["*.txt"]}, {"js": ["noext"]}, {"py": ["*.txt"]}, {"ts": ["noext"]},
@@ -405,7 +407,7 @@ def build_cases(tier):
     for lay in (full, test_only):
         for sv in sev_assignments(tier, "all"):
             add("B1:own severities", lay, fixed_rules(sv))
-    # factor B2: the complete override alphabet x own-severity assignments (quick: 2 fixed; thorough: all 125)
+    # factor B2: the complete override alphabet x own-severity assignments (quick: 2 fixed; thorough: 25 = Latin square over 5^3)
     for sv in sev_assignments(tier, "fixed"):
         for ov in override_alphabet():
             add("B2:overrides x own severities", full, fixed_rules(sv), ov)
@@ -479,9 +481,13 @@ def main(argv):
     samples = []
     for c, (obs, verdicts) in zip(cases, results):
         per_factor[c["factor"]] = per_factor.get(c["factor"], 0) + 1
+        by_sig = {}
         for sig, detail in verdicts:
+            by_sig.setdefault(sig, []).append(detail)
+        for sig, details in by_sig.items():      # one violation per (case, class); first 5 instances kept
             pc = case_public(c)
-            pc["violation"] = detail
+            pc["violation"] = details[:5]
+            pc["violation_instances"] = len(details)
             rep.violation(sig, pc)
         if c.get("kind") == "table":
             continue
@@ -535,7 +541,7 @@ def main(argv):
             "(layout, language, combination) occurs exactly once); A2) same for three js rules sharing files on the full layout; "
             "B1) all 5^3 own severities x {full, test/ only}; B2) complete override alphabet (none; 1 id->1 flag; 2 ids->any 2 flags; bare flag; "
             "bare + per-id on a different flag; 6 --filter regexes alone / with --error / with --off=r1) x own-severity assignments "
-            "(quick: 2 fixed, thorough: all 125); C) 7 languageGlobs settings x 36 rule sets x layouts (quick: full; thorough: full, ext=txt, ext=none); "
+            "(quick: 2 fixed; thorough: the 25 assignments (s1, s2, SEVS[(i1+i2)%5]), i.e. every pair of rules sees all 25 severity pairs); C) 7 languageGlobs settings x 36 rule sets x layouts (quick: full; thorough: full, ext=txt, ext=none); "
             "D) {no path, `.`} x every layout x {none, --error, --off=r1}. Every source file holds `foo(1)` and every rule is `foo($A)`, so 'rule applied "
             "to file' <=> >= 1 finding (file, ruleId). Non-trivial case = the reference expects >= 1 applied (file, rule) pair AND >= 1 pair excluded by a "
             "rule-side clause (language mismatch, files, ignores, off, filter). Out of the alphabet (statement silent): one id on two different flags, two "
@@ -548,7 +554,8 @@ def main(argv):
         "bare flag + per-id flag for another severity: the per-id flag wins for the named id (DESIGN A.4: specific beats general); reported under its own signature suffix `per-id-over-bare`",
         "exit-code clause is judged against the findings the binary actually reported (effective severity from the reference), so a selection error is not reported twice",
         "the `severity` label printed in JSON is only counted (severity_label_disagreements_not_judged), the statement does not mention it",
-        "no suppression comments, no .gitignore/hidden files, no symlinks, threads default; file content fixed `foo(1)`",
+        "no suppression comments, no .gitignore/hidden files inside the project, no symlinks, threads default; file content fixed `foo(1)`",
+        "scratch projects live under /verif/.build/tmp, so /verif/.gitignore (`.build/`, `replays/`, `__pycache__/`, `*.pyc`) is a parent ignore file the walker honours; no name of the alphabet matches it",
     ]
     return rep.finish("exploration", coverage, assumptions)
 
@@ -556,7 +563,7 @@ def main(argv):
 def replay(binary, path):
     doc = json.load(open(path))
     case = doc["case"]
-    case = {k: v for k, v in case.items() if k != "violation"}
+    case = {k: v for k, v in case.items() if k not in ("violation", "violation_instances")}
     root = vlib.scratch("c15_replay")
     obs, verdicts = run_case(binary, root, case)
     print("case:", json.dumps(case, ensure_ascii=False))
